@@ -15,7 +15,7 @@ Lemma safe_nofuel {A} : safe_m (@nofuel A).
 Proof. intros s H. exact I. Qed.
 Lemma safe_bind {A B} (m : M A) (f : A -> M B) : safe_m m -> (forall a, safe_m (f a)) -> safe_m (bind m f).
 Proof.
-  intros Hm Hf s H. unfold bind. specialize (Hm s H). destruct (m s) as [a s'| | |]; auto. apply (Hf a s' Hm).
+  intros Hm Hf s H. unfold bind. specialize (Hm s H). destruct (m s) as [a s'| | | |]; auto. apply (Hf a s' Hm).
 Qed.
 Lemma safe_p_next : safe_m p_next.
 Proof.
@@ -124,9 +124,9 @@ Proof. induction g as [|g IH]; intros; cbn [top_loop]; sm. Qed.
 Theorem read_file_never_panics input fails : read_file input fails <> PPanic.
 Proof.
   unfold read_file. intros E.
-  pose proof (safe_top_loop (2 * (length input + 3) + 8)
+  pose proof (safe_top_loop (2 * (length input + margin) + 8)
     {| structs := []; messages := []; enums := []; unions := []; consts := []; imports := []; gopackage := [] |} [] 0%N false false) as H.
-  specialize (H {| rs := next_results (length input + 3)
+  specialize (H {| rs := next_results (length input + margin)
                       {| buf := {| rest := input; lastByte := None; lastRune := None; failing := fails |}; errs := [] |};
                    cur := tok0; keep := false; perrs := [] |}).
   cbn [rs] in H. specialize (H (next_results_no_np _ _)). rewrite E in H. exact H.
